@@ -521,24 +521,33 @@ static const cfg_print_func_t h_print_tab[H_NK] = H_TAB(print);
 
 /* ------------------------------------------------------------- print filter */
 
-typedef struct { cfg_t *sec; int ctx; char **names; int n; } h_filt;
+typedef struct { cfg_t *sec; int ctx; char **names; int n; int slot; } h_filt;
 static h_filt *h_filts;
 static int h_nfilts;
 
-static int h_filter(cfg_t *cfg, cfg_opt_t *opt)
+/* The library hands a context's filter FUNCTION down to sections without one of their own, so the
+ * name set must be bound to the function, not to the section being printed: one function per slot. */
+#define H_NSLOT 16
+static int h_filter_slot(int slot, cfg_opt_t *opt)
 {
 	int i, j;
 
 	for (i = 0; i < h_nfilts; i++) {
-		if (h_filts[i].sec != cfg)
+		if (h_filts[i].slot != slot)
 			continue;
 		for (j = 0; j < h_filts[i].n; j++)
 			if (opt->name && !strcmp(opt->name, h_filts[i].names[j]))
 				return 1;
 		return 0;
 	}
-	return 0;		/* section without an entry of its own (inherited filter): print all */
+	return 0;
 }
+#define H_FILT(k) static int h_filter_##k(cfg_t *cfg, cfg_opt_t *opt) { (void)cfg; return h_filter_slot(k, opt); }
+H_FILT(0) H_FILT(1) H_FILT(2) H_FILT(3) H_FILT(4) H_FILT(5) H_FILT(6) H_FILT(7)
+H_FILT(8) H_FILT(9) H_FILT(10) H_FILT(11) H_FILT(12) H_FILT(13) H_FILT(14) H_FILT(15)
+static const cfg_print_filter_func_t h_filter_fn[H_NSLOT] = {
+	h_filter_0, h_filter_1, h_filter_2, h_filter_3, h_filter_4, h_filter_5, h_filter_6, h_filter_7,
+	h_filter_8, h_filter_9, h_filter_10, h_filter_11, h_filter_12, h_filter_13, h_filter_14, h_filter_15 };
 
 static void h_filt_drop(int i)
 {
@@ -1361,7 +1370,7 @@ static void h_c_hook(const char *cmd, cfg_t *cfg)
 	char *path = h_str(2);
 
 	if (!strcmp(cmd, "filter")) {
-		h_filt f = { NULL, 0, NULL, 0 };
+		h_filt f = { NULL, 0, NULL, 0, 0 };
 		char *req[H_MAXTOK];
 		cfg_t *sec;
 		int i;
@@ -1373,12 +1382,21 @@ static void h_c_hook(const char *cmd, cfg_t *cfg)
 		}
 		if (h_bad)
 			return;
-		H_LIB(sec = path ? cfg_getsec(cfg, path) : cfg; if (sec) cfg_set_print_filter_func(sec, h_filter));
+		H_LIB(sec = path ? cfg_getsec(cfg, path) : cfg);
 		if (sec) {
 			h_filt_purge();
 			for (i = h_nfilts - 1; i >= 0; i--)
 				if (h_filts[i].sec == sec)
 					h_filt_drop(i);
+			for (f.slot = 0; f.slot < H_NSLOT; f.slot++) {
+				for (i = 0; i < h_nfilts && h_filts[i].slot != f.slot; i++)
+					;
+				if (i == h_nfilts)
+					break;
+			}
+			if (f.slot == H_NSLOT)
+				h_die("too many print filters");
+			cfg_set_print_filter_func(sec, h_filter_fn[f.slot]);
 			f.names = h_xrealloc(NULL, (size_t)f.n * sizeof(char *));
 			for (i = 0; i < f.n; i++)
 				f.names[i] = strdup(req[i]);
